@@ -503,6 +503,21 @@ func TestC12Shutdown(t *testing.T) {
 			}
 			conns = append(conns, c)
 		}
+		// idle and half-sent HTTP connections
+		nHTTP := rapid.IntRange(0, 3).Draw(t, "idleHTTP")
+		for i := 0; i < nHTTP; i++ {
+			c, err := net.Dial("tcp", fmt.Sprintf("127.0.0.1:%d", s.S.HTTP))
+			if err != nil {
+				t.Fatal(err)
+			}
+			switch rapid.IntRange(0, 2).Draw(t, "httpPartial") {
+			case 1:
+				c.Write([]byte("GET /api/v1/equipment HTTP/1.1\r\nHost: x\r\n"))
+			case 2:
+				c.Write([]byte("POST /api/v1/authorize-equipment HTTP/1.1\r\nHost: x\r\nContent-Length: 500\r\n\r\n{\"ShortID\":"))
+			}
+			conns = append(conns, c)
+		}
 		stall := rapid.Bool().Draw(t, "stalledPeer")
 		var ln net.Listener
 		if stall {
@@ -572,7 +587,7 @@ func TestC12Shutdown(t *testing.T) {
 				s.fail("the server-list mutex is held while a handler waits for a stalled peer")
 			}
 		}
-		s.logf("shutdown with %d idle/half-sent sync connections, stalled peer=%v", nIdle, stall)
+		s.logf("shutdown with %d idle/half-sent sync connections, %d idle/half-sent HTTP connections, stalled peer=%v", nIdle, nHTTP, stall)
 		t0 := time.Now()
 		err := s.S.Close()
 		d := time.Since(t0)
@@ -587,10 +602,10 @@ func TestC12Shutdown(t *testing.T) {
 		if ps := server.VerifPanics(); len(ps) > 0 {
 			s.fail("panic during shutdown: %s: %s", ps[0].Where, ps[0].Value)
 		}
-		if nIdle > 0 || stall {
-			ev.NonTrivial(fmt.Sprintf("c12|shutdown|%d|%v", nIdle, stall))
+		if nIdle > 0 || stall || nHTTP > 0 {
+			ev.NonTrivial(fmt.Sprintf("c12|shutdown|%d|%d|%v", nIdle, nHTTP, stall))
 			ev.Label("c12:shutdown-nontrivial")
-			ev.Sample("c12:shutdown", map[string]interface{}{"idle_or_half_sent": nIdle, "stalled_peer": stall, "close_seconds": d.Seconds()})
+			ev.Sample("c12:shutdown", map[string]interface{}{"idle_or_half_sent_sync": nIdle, "idle_or_half_sent_http": nHTTP, "stalled_peer": stall, "close_seconds": d.Seconds()})
 		}
 		_ = os.Remove
 	})
